@@ -52,6 +52,7 @@ func Set(m Model) {
 	emitLog = nil
 	Failed = nil
 	Reached = nil
+	sharedLog = nil
 }
 
 // EmitLog returns the emit log of the current run.
@@ -193,3 +194,26 @@ func SetTicks(n int)          {}
 func Float64bits(f float64) uint64     { return math.Float64bits(f) }
 func Float64frombits(u uint64) float64 { return math.Float64frombits(u) }
 func IsNaN(f float64) bool             { return f != f }
+
+// shared, globally ordered log (a scheduling point under the engine)
+var sharedLog []uint64
+
+func LogAppend(v uint64) {
+	Point("log")
+	mu.Lock()
+	sharedLog = append(sharedLog, v)
+	mu.Unlock()
+}
+func LogLen() int {
+	mu.Lock()
+	defer mu.Unlock()
+	return len(sharedLog)
+}
+func LogAt(i int) uint64 {
+	mu.Lock()
+	defer mu.Unlock()
+	return sharedLog[i]
+}
+
+// Point is a scheduling point of the native schedule replay (no-op unless a schedule is loaded).
+func Point(kind string) {}
